@@ -168,7 +168,7 @@ pub fn suite_c18(ctx: &mut Ctx) {
         }
         // tiny x with tiny coefficients: every term lives in the lowest quire limbs (carries between them),
         // and: a large tie-forming pair of terms plus a far smaller one (sticky bits across limbs)
-        let nt = ctx.q(300, 6000);
+        let nt = ctx.q(600, 12_000);
         for r in 0..nt {
             let deg = DEGS[r % DEGS.len()];
             let nc = ncoef(deg);
@@ -176,23 +176,29 @@ pub fn suite_c18(ctx: &mut Ctx) {
             let (x, cs): (u64, Vec<Vec<u64>>) = if r % 2 == 0 {
                 let x = [1u64, 2, 3, gen::neg(ty.n, 1)][ (r / 2) % 4];
                 let cs = (0..nc).map(|_| {
-                    let v = gen::from_scale(ty.n, ty.es, ctx.rng.gen_range(-maxs..-maxs / 2), ctx.rng.gen::<u64>());
+                    let v = gen::from_scale(ty.n, ty.es, ctx.rng.gen_range(-maxs..-maxs / 2 + 8), ctx.rng.gen::<u64>());
                     vec![if ctx.rng.gen::<bool>() { gen::neg(ty.n, v) } else { v }]
                 }).collect();
                 (x, cs)
             } else {
-                // c_last = big, c_(last-1) * x = half ulp of big, leading coefficient * x^deg = dust
-                let sc = ctx.rng.gen_range(0..maxs);
+                // x = 1 (all powers are 1): the constant coefficient is big, the next one is exactly half an
+                // ulp of it (a tie), and one more coefficient is dust far below (sticky bits across limbs)
+                let sc = ctx.rng.gen_range(-maxs / 2..maxs);
                 let big = gen::from_scale(ty.n, ty.es, sc, [0u64, u64::MAX, 1 << 63, ctx.rng.gen::<u64>()][(r / 2) % 4]);
                 let (_, s2, nf, _) = gen::decode(ty.n, ty.es, big);
-                let x = 1u64; // minpos: all powers saturate at minpos = 2^-maxs
-                let half = gen::from_scale(ty.n, ty.es, (s2 - nf as i32 - 1 + maxs).clamp(-maxs, maxs), 0);
+                let x = 1u64 << (ty.n - 2);
+                let half = gen::from_scale(ty.n, ty.es, s2 - nf as i32 - 1, 0);
                 let mut cs: Vec<Vec<u64>> = (0..nc).map(|_| vec![0u64]).collect();
                 cs[nc - 1] = vec![big];
                 cs[nc - 2] = vec![half];
                 if nc >= 3 {
-                    let d = gen::from_scale(ty.n, ty.es, ctx.rng.gen_range(-maxs..(-maxs / 2)), ctx.rng.gen::<u64>());
+                    let d = gen::from_scale(ty.n, ty.es, ctx.rng.gen_range(-maxs..(s2 - 66).clamp(-maxs + 1, maxs)), ctx.rng.gen::<u64>());
                     cs[ctx.rng.gen_range(0..nc - 2)] = vec![if ctx.rng.gen::<bool>() { gen::neg(ty.n, d) } else { d }];
+                }
+                if ctx.rng.gen::<bool>() {
+                    for c in cs.iter_mut() {
+                        c[0] = gen::neg(ty.n, c[0]);
+                    }
                 }
                 (x, cs)
             };
